@@ -53,6 +53,9 @@ def run_property(prop, tier, seed, verbose=True):
     tmpd = tempfile.mkdtemp(prefix=f'pfstmon_{prop}_', dir=os.environ.get('VERIF_TMP') or None)
     procs = []
     env = env_for_shards()
+    import glob
+    for old in glob.glob(os.path.join(HERE, 'replays', f'{prop}_{tier}_*.json')):
+        os.unlink(old)
     for sh in range(nshards):
         out = os.path.join(tmpd, f'shard{sh}.json')
         log = open(os.path.join(tmpd, f'shard{sh}.log'), 'w')
